@@ -341,7 +341,7 @@ func TestMempool(t *testing.T) {
 	if pbt.Tier() == "thorough" {
 		minOps, maxOps = 50, 150
 	}
-	pbt.Check(t, pbt.Cfg{Name: "mempool", Quick: 2400, Thorough: 40000}, func(r *pbt.Run) {
+	pbt.Check(t, pbt.Cfg{Name: "mempool", Quick: 1600, Thorough: 40000}, func(r *pbt.Run) {
 		c := genCase(r.T, minOps, maxOps)
 		r.Case(c)
 		st, err := runCase(c)
@@ -361,7 +361,6 @@ func TestMempool(t *testing.T) {
 		pbt.AddExtra("blocks_from_listing", int64(st.minedBlocks))
 		pbt.AddExtra("txs_in_blocks_from_listing", int64(st.minedTxs))
 		pbt.AddExtra("txs_returned_by_undo", int64(st.undoneTxs))
-		pbt.AddExtra("max_pool", 0)
 		if x, ok := err.(*sim.Excluded); ok {
 			r.Excluded(x.Key)
 			return
